@@ -643,6 +643,8 @@ def run(chk: Check) -> None:
     d17_every_match_is_changed(chk)
     d18_inferred_format_is_used_as_inferred(chk)
     d19_no_local_time_conversions(chk)
+    d20_int_arm_keeps_the_refusal(chk)
+    d8b_exact_kind_ladder(chk)
     d7c_presentation_set_in_one_place(chk)
     from rules.shared import shared_state_rule
     shared_state_rule(chk, "C03-D11", ("yamlpath/processor.py",
@@ -889,6 +891,84 @@ def d19_no_local_time_conversions(chk: Check) -> None:
         raise AnalysisError("functions examined: {}".format(n))
 
 
+def d20_int_arm_keeps_the_refusal(chk: Check) -> None:
+    """`wrap_type` finds the kind of a value with literal_eval but builds an
+    integer node from the *original* text: `ScalarInt("0x1F")` raises
+    ValueError, which is the signal the DEFAULT branch of make_new_node
+    relies on to store such look-alike text as text.  Built from the
+    evaluated number instead, `0x1F` / `0o17` / `(7)` are inferred as INT
+    and the set is refused (or, when creating, the evaluated number is
+    planted in the padding before the failure)."""
+    prog = chk.prog
+    chk.rule("C03-D20", "wrap_type builds its ScalarInt from the value it "
+             "was given, not from the literal-evaluated number", floor=1)
+    fi = prog.func("Nodes.wrap_type")
+    val = fi.params()[0]
+    calls = [c for c in walk_local(fi.node) if isinstance(c, ast.Call) and
+             src(c.func) == "ScalarInt"]
+    if not calls:
+        raise AnalysisError("ScalarInt construction of wrap_type not found")
+    for c in calls:
+        text = "wrap_type: {}".format(src(c))
+        if c.args and src(c.args[0]) == val:
+            chk.ok("C03-D20", fi, c, text, "int() semantics of the text")
+        else:
+            chk.fail("C03-D20", fi, c, text,
+                     "the node is built from the evaluated number: text "
+                     "that literal_eval reads as an integer but int() "
+                     "refuses (0x1F, 0o17, 0b101, (7)) no longer raises "
+                     "ValueError here, so it is no longer stored as text")
+
+
+def d8b_exact_kind_ladder(chk: Check) -> None:
+    """`wrap_type` picks the wrapper by the *exact* class of the evaluated
+    value (`typ is date`, `typ is datetime`, `typ is bool`, `typ is int`).
+    Exactness matters because of Python's subclassing: a datetime is a
+    date, a bool is an int.  An `isinstance` arm for a base class placed
+    before the arm of one of its subclasses swallows it -- every date-time
+    value is rebuilt as a date only and loses its time of day."""
+    from sa.ladders import is_sub
+    prog = chk.prog
+    chk.rule("C03-D8b", "no isinstance arm of wrap_type's kind ladder "
+             "stands before the arm of a subclass of its class", floor=6)
+    fi = prog.func("Nodes.wrap_type")
+    heads = [st for st in fi.node.body if isinstance(st, ast.If)]
+    if not heads:
+        raise AnalysisError("kind ladder of wrap_type not found")
+    arms = []
+    cur = heads[-1]
+    while cur is not None:
+        t = cur.test
+        kind = cls = None
+        if isinstance(t, ast.Compare) and len(t.ops) == 1 and \
+                isinstance(t.ops[0], ast.Is):
+            kind, cls = "is", src(t.comparators[0])
+        elif isinstance(t, ast.Call) and src(t.func) == "isinstance" and \
+                len(t.args) == 2:
+            kind, cls = "isinstance", src(t.args[1])
+        arms.append((cur, kind, cls))
+        cur = cur.orelse[0] if len(cur.orelse) == 1 and \
+            isinstance(cur.orelse[0], ast.If) else None
+    for i, (node, kind, cls) in enumerate(arms):
+        text = "wrap_type arm {}: {}".format(i + 1, src(node.test)[:40])
+        if kind != "isinstance":
+            chk.ok("C03-D8b", fi, node, text, "exact class", False)
+            continue
+        names = [c.strip() for c in cls.strip("()").split(",")]
+        later = [c2 for (_, _, c2) in arms[i + 1:] if c2]
+        shadowed = [c2 for c2 in later for b in names
+                    if c2 != b and is_sub(prog, c2.split(".")[-1],
+                                          b.split(".")[-1])]
+        if shadowed:
+            chk.fail("C03-D8b", fi, node, text,
+                     "isinstance({}) is also true of {}: the later arm for "
+                     "it can never be taken, so such values are wrapped as "
+                     "the base kind (a date-time becomes a date and loses "
+                     "its time of day)".format(cls, sorted(set(shadowed))))
+        else:
+            chk.ok("C03-D8b", fi, node, text, "shadows no later arm")
+
+
 def d14_anchor_is_written(chk: Check) -> None:
     """A replacement node carries the old node's anchor *and writes it*.
     ruamel.yaml emits an anchor only when an alias refers to the node or
@@ -1018,7 +1098,8 @@ def d3b_retry_forwards_value(chk: Check) -> None:
                      "one asked for".format(", ".join(a), p_src, p_val))
 
 
-FLOAT_SAMPLES = [100.0, 1.0, 0.0, -2.0, 1.5, -0.5, 0.25, 1000.0, 10.5]
+FLOAT_SAMPLES = [100.0, 1.0, 0.0, -2.0, 1.5, -0.5, 0.25, 1000.0, 10.5,
+                 5e-05, -6.25e-05, 0.000125]
 
 
 def _ruamel_float_text(value: float, m_sign: Optional[str], prec: int,
